@@ -140,7 +140,7 @@ def tlc_mc(workdir, module, cfg_text, workers=4, timeout=900, heap=None, want_T=
     return res
 
 
-def tlc_validate(workdir, spec, trace_path, env_extra=None, timeout=900, heap="3g"):
+def tlc_validate(workdir, spec, trace_path, env_extra=None, timeout=1800, heap="3g"):
     """Validate an ndjson trace against trace spec `spec` (ModTrace / CliTrace).
     Returns dict(accepted, n_accepted, failed_tags, detail)."""
     meta = _metadir(workdir)
